@@ -1631,6 +1631,20 @@ def dec_mantissa(it, args, callee):
     return _to_bv_from_int(it, d.m, 128, True, 'mant')
 
 
+@model('rust_decimal::Decimal::unpack', 'Decimal::unpack')
+def dec_unpack(it, args, callee):
+    """UnpackedDecimal { negative, scale, hi, mid, lo } (declaration order)"""
+    d = deref_all(args[0])
+    if not is_sym(d.m):
+        mag = abs(d.m)
+        neg = d.m < 0 or (d.m == 0 and d.src == 'negzero')
+        return Agg('UnpackedDecimal', (neg, d.s, (mag >> 64) & 0xFFFFFFFF, (mag >> 32) & 0xFFFFFFFF, mag & 0xFFFFFFFF))
+    v = _to_bv_from_int(it, d.m, 128, True, 'mant')
+    neg = simp(v < 0)
+    mag = simp(z3.If(neg, -v, v))
+    return Agg('UnpackedDecimal', (neg, d.s, simp(z3.Extract(95, 64, mag)), simp(z3.Extract(63, 32, mag)), simp(z3.Extract(31, 0, mag))))
+
+
 @model('rust_decimal::Decimal::is_sign_negative', 'Decimal::is_sign_negative')
 def dec_is_neg(it, args, callee):
     d = deref_all(args[0])
